@@ -217,11 +217,11 @@ type lockFinding struct {
 }
 
 type lockUnitReport struct {
-	unit                      *Unit
-	nLock, nUnlock, nAccess   int
-	findings                  []lockFinding
-	appCallsUnderLock         []string
-	hasLockOps                bool
+	unit                    *Unit
+	nLock, nUnlock, nAccess int
+	findings                []lockFinding
+	appCallsUnderLock       []string
+	hasLockOps              bool
 }
 
 type lockEngine struct {
